@@ -43,7 +43,18 @@ def _worker_case(pid, seed, tier, idx, wall):
     mod = load_prop(pid)
     t0 = time.monotonic()
     try:
-        rec = mod.run_case(seed, tier, idx)
+        try:
+            rec = mod.run_case(seed, tier, idx)
+        except ForkError as e:
+            if "wait status 11" not in str(e):
+                raise
+            # interpreter crash in the child (see sched.py): one retry at line granularity, and say so
+            os.environ["PBSIM_NO_OPCODE"] = "1"
+            try:
+                rec = mod.run_case(seed, tier, idx)
+                rec["retried_after_interpreter_crash"] = True
+            finally:
+                os.environ.pop("PBSIM_NO_OPCODE", None)
     except ForkError as e:
         rec = {"seed": seed, "harness_error": str(e)}
     except Exception:
@@ -226,7 +237,7 @@ def main(argv=None):
         rep.update({"format": 1, "engine": "pbsim", "engine_version": ENGINE_VERSION, "zygote_warmup": ZYGOTE_WARMUP,
                     "property": pid, "seed": rec["seed"], "tier": a.tier,
                     "violation": {"sig": v["sig"], "detail": v.get("detail", "")[:2000]}})
-        if not a.no_minimise and hasattr(mod, "minimise"):
+        if not a.no_minimise and hasattr(mod, "minimise") and len(seen_sigs) <= 2:
             try:
                 rep = run_in_fork(_minimise_in_child, (pid, rep), timeout=900)
             except ForkError as e:
@@ -242,7 +253,7 @@ def main(argv=None):
         else:
             harness_errors.append({"seed": rec["seed"], "harness_error":
                                    f"violation {key} did not reproduce from its replay file {path}:\n{out}"})
-        if len(reported) >= 5:
+        if len(reported) >= 3:
             break
 
     wall = time.monotonic() - t_start
@@ -294,6 +305,7 @@ def build_evidence(mod, pid, tier, base, records, wall, det, known_hit, reported
     cov["known_findings_reproduced"] = sorted(known_hit)
     cov["violation_replays"] = reported
     cov["harness_errors"] = len(harness_errors)
+    cov["runs_retried_without_opcode_after_interpreter_crash"] = sum(1 for r in good if r.get("retried_after_interpreter_crash"))
     cov["components"] = {
         "real": "the entire pure-Python py_ballisticcalc package imported from the working tree of " + lib.REPO,
         "stub": mod.STUBS,
